@@ -832,6 +832,12 @@ func (l *lexer) scanHeredocs() bool {
 					if r, err = l.read(); err != nil {
 						goto Error
 					}
+					if r == '"' {
+						// not special in a here-document
+						l.b.WriteByte('\\')
+						l.b.WriteRune(r)
+						break
+					}
 					l.esc(r)
 					if r == '\n' && (len(l.word) == 0 || l.word[len(l.word)-1].End().Line() < start.Line() || l.word[len(l.word)-1].End() == start) {
 						// nothing but the line continuation so far: the
